@@ -273,6 +273,8 @@ def _lean_compile(src, out_root, rel, env):
     """lean -o out_root/GcArena/<rel>.olean src"""
     dst = os.path.join(out_root, "GcArena", rel + ".olean")
     os.makedirs(os.path.dirname(dst), exist_ok=True)
+    if os.path.islink(dst):
+        os.unlink(dst)  # never write through a link into the project's own build directory
     rc, so, se = _run(["lean", "-R", os.path.dirname(os.path.abspath(src)), "-o", dst, src], env=env, timeout=1200)
     return rc == 0, (so + se)
 
@@ -314,9 +316,24 @@ def lean_eval(cfg, prop, gen_dir, out_tag="main", elab=False):
                     res["info"][k] = v
     res["ok"] = True
     if elab:
-        # modules outside the tables engine (the collector model behind Proofs/WriteCapBridge) are
-        # taken pre-built from the Lean project; whatever was compiled here takes precedence
-        env = dict(env, LEAN_PATH=out_root + os.pathsep + os.path.join(cfg["lean"], ".lake", "build", "lib", "lean"))
+        # modules outside the tables engine (the collector model behind Proofs/WriteCapBridge) are taken
+        # pre-built from the Lean project: link every .olean that was not compiled here (lean resolves a
+        # module inside the first search-path root that has the package directory)
+        pre = os.path.join(cfg["lean"], ".lake", "build", "lib", "lean")
+        mine = {os.path.join("GcArena", m) for m in PROP_ELAB.get(prop, [])}
+        for dp, _, files in os.walk(os.path.join(pre, "GcArena")):
+            rel = os.path.relpath(dp, pre)
+            for fn in files:
+                if fn.endswith((".olean", ".olean.server", ".olean.private", ".ilean")):
+                    if os.path.join(rel, fn.split(".")[0]) in mine:
+                        continue  # compiled below
+                    dst = os.path.join(out_root, rel, fn)
+                    if not os.path.lexists(dst):
+                        os.makedirs(os.path.dirname(dst), exist_ok=True)
+                        try:
+                            os.symlink(os.path.join(dp, fn), dst)
+                        except OSError:
+                            pass
         failing = []
         for rel in PROP_ELAB.get(prop, []):
             src = os.path.join(cfg["lean"], "GcArena", rel + ".lean")
